@@ -63,7 +63,7 @@ def run(ctx):
             p["const"] = (k % 2 == 0)
         ctx.extra.setdefault("programs", {})[scale] = len(got)
         progs += got
-    results = ctx.replay("replay-memacc", progs, timeout=3400)
+    results = ctx.replay("replay-memacc", progs, timeout=3400 if q else 9000)
     nexec = 0
     for p, r in zip(progs, results):
         nexec += len(p["runs"])
